@@ -137,6 +137,17 @@ def block_catalogue(r, tier):
     t = valid_tx(r)
     add("duplicate-tx", [coinbase(r), t, valid_tx(r), t])
     add("duplicate-tx-adjacent", [coinbase(r), t, t])
+    # the same txid twice, told apart only by witness data (txids must not repeat)
+    tw1, tw2 = copy.deepcopy(t), copy.deepcopy(t)
+    tw1["wit"] = [[b"\x01"] for _ in t["vin"]]
+    tw2["wit"] = [[b"\x02\x02"] for _ in t["vin"]]
+    nonce_d = gen.rbytes(r, 32)
+    for nm, pair in (("duplicate-txid-different-witness", [tw1, tw2]), ("duplicate-txid-one-without-witness", [tw1, t])):
+        cbd = coinbase(r)
+        cbd["wit"] = [[nonce_d]]
+        txs_d = [cbd] + pair
+        cbd["vout"].append({"value": 0, "script": make_commit(txs_d, nonce_d)})
+        add(nm, txs_d)
     cb = coinbase(r)
     add("duplicate-coinbase", [cb, cb])
     # signature operations: 20,000 vs 20,001, in ordinary txs, in the coinbase, with a malformed script
@@ -151,6 +162,7 @@ def block_catalogue(r, tier):
     add("sigops-20001", [coinbase(r), sigtx(19999), sigtx(2)])
     add("sigops-20001-in-scriptSig", [coinbase(r), sigtx(19999), sigtx(2, where="vin")])
     add("sigops-multisig-20x1000", [coinbase(r), sigtx(0, b"\xae" * 1000)])
+    add("sigops-op1-multisig-20x1001", [coinbase(r), sigtx(0, b"\x51\xae" * 1001)])      # legacy count: 20 each, whatever precedes
     add("sigops-multisig-20x1000+1", [coinbase(r), sigtx(1, b"\xae" * 1000)])
     add("sigops-20000-then-malformed", [coinbase(r), sigtx(20000, b"\x4c")])          # counted up to the bad push
     add("sigops-20001-then-malformed", [coinbase(r), sigtx(20001, b"\x05\x01")])
@@ -248,9 +260,12 @@ def drive(tier):
                     continue
                 R.add("check.tx", {"tx": gen.tx_json(d), "name": name, "mutable": mut}, outcome(k, v), chain=ch,
                       _cost=4000000 if "size" in name else 300)
-    for ch in CHAINS:
+    for ch in CHAINS + ["regtest", "mainnet", "signet", "regtest", "testnet", "mainnet"]:
         bitcoin.SelectParams(ch)
+        revisit = len([x for x in R.recs if x["op"] == "check.blk" and x.get("chain") == ch]) > 0
         for name, h, txs, now, pw, mf in block_catalogue(r, tier):
+            if revisit and not name.startswith("pow"):
+                continue            # chains are revisited (in another order) for the proof-of-work entries only
             if ch != "regtest" and tier == "quick" and not (name.startswith("pow") or name in ("valid", "cb:coinbase-script-1", "witness-valid-commitment", "sigops-20001")):
                 continue
             k, blk = call(build_block, h, txs)
@@ -259,6 +274,11 @@ def drive(tier):
             if k == "exc":
                 R.add("check.blk", {"blk": gen.block_json(d), "now": now, "pow": pw, "merkle": mf, "name": name}, dict(exc_info(blk), k="exc", stage="build"), chain=ch)
                 continue
+            if name.startswith("sigops") and ch in ("regtest", "testnet"):
+                # a caller that asked for the accurate counts first must not change the verdict
+                for t_ in blk.vtx:
+                    for s_ in [i_.scriptSig for i_ in t_.vin] + [o_.scriptPubKey for o_ in t_.vout]:
+                        call(s_.GetSigOpCount, True)
             k, v = call(CheckBlock, blk, pw, mf, now)
             R.add("check.blk", {"blk": gen.block_json(d), "now": now, "pow": pw, "merkle": mf, "name": name}, outcome(k, v), chain=ch,
                   _cost=2000 + sum(len(t2["vout"][0]["script"]) if t2["vout"] else 0 for t2 in txs) * 30)
